@@ -29,35 +29,36 @@ type LoopSpec struct {
 }
 
 type Contract struct {
-	Key       string // as written: getObjState / (*T).M / full path for trusted
-	Pkg       string // package path of the file the contract is in
-	Trusted   bool
-	Props     []string
-	Tier      string // quick (default) | thorough
-	Requires  []Clause
-	Ensures   []Clause
-	Modifies  []string // nil = unspecified (= nothing for verified functions if ModSet)
-	ModSet    bool
-	Loops     map[int]*LoopSpec
-	RangeLoops map[int]*LoopSpec
-	NoPanic   bool
-	Inline    bool
-	Pure      bool // modifies nothing & result is a function of args (uninterpreted)
-	Fresh     bool // result is a freshly allocated reference
-	Assumes   []Clause // assumptions (listed in evidence)
-	Universe  map[string][]string // param -> dynamic types allowed (interfaces)
-	Params    []string // optional explicit parameter names (trusted funcs without source)
-	File      string
-	Line      int
-	Notes     []string
-	CallsFn   map[string]string // funcparam -> "atmostonce" etc (higher order)
-	FuncParams map[string]*Contract // contracts of function-typed parameters
-	GhostSets  []GhostSet
-	DynCall    *Contract // frame assumed for dynamic calls
-	Unreachable []string // names of return covers that are legitimately dead, e.g. return@1
-	SplitPosts  bool     // post and frame obligations per return statement (large functions)
-	Private     []string // heap keys (modifies syntax) that calls without a contract are assumed not to change, see private.go
-	Opaque      []string // callees (by short name) treated as unknown calls inside this function: full havoc, no use of their contract
+	Key         string // as written: getObjState / (*T).M / full path for trusted
+	Pkg         string // package path of the file the contract is in
+	Trusted     bool
+	Props       []string
+	Tier        string // quick (default) | thorough
+	Requires    []Clause
+	Ensures     []Clause
+	Modifies    []string // nil = unspecified (= nothing for verified functions if ModSet)
+	ModSet      bool
+	Loops       map[int]*LoopSpec
+	RangeLoops  map[int]*LoopSpec
+	NoPanic     bool
+	Inline      bool
+	Pure        bool                // modifies nothing & result is a function of args (uninterpreted)
+	Fresh       bool                // result is a freshly allocated reference
+	Assumes     []Clause            // assumptions (listed in evidence)
+	Universe    map[string][]string // param -> dynamic types allowed (interfaces)
+	Params      []string            // optional explicit parameter names (trusted funcs without source)
+	File        string
+	Line        int
+	Notes       []string
+	CallsFn     map[string]string    // funcparam -> "atmostonce" etc (higher order)
+	FuncParams  map[string]*Contract // contracts of function-typed parameters
+	GhostSets   []GhostSet
+	DynCall     *Contract // frame assumed for dynamic calls
+	Unreachable []string  // names of return covers that are legitimately dead, e.g. return@1
+	SplitPosts  bool      // post and frame obligations per return statement (large functions)
+	TrustPre    []string  // callees (short names) whose preconditions are assumed, not proved, at the call sites in this function
+	Private     []string  // heap keys (modifies syntax) that calls without a contract are assumed not to change, see private.go
+	Opaque      []string  // callees (by short name) treated as unknown calls inside this function: full havoc, no use of their contract
 }
 
 type SpecFn struct {
@@ -77,14 +78,14 @@ type GhostVar struct {
 }
 
 type Lemma struct {
-	Name  string
-	Expr  *CNode
-	Src   string
-	Pkg   string
-	Props []string
-	File  string
-	Line  int
-	Axiom bool // assumed, listed in trusted base
+	Name   string
+	Expr   *CNode
+	Src    string
+	Pkg    string
+	Props  []string
+	File   string
+	Line   int
+	Axiom  bool   // assumed, listed in trusted base
 	Expect string // "" = must be valid ; "sat" = known finding style
 }
 
@@ -121,17 +122,17 @@ type GhostSet struct {
 }
 
 type ContractSet struct {
-	ChanGhosts map[string]string // pkg::Type.field -> ghost seq variable
-	ChanCounts map[string]string // pkg::Type.field -> ghost map[ref]int counting receives per owner object
-	LockInvs map[string]*LockInv // pkg::Type.field
-	UFuncs   map[string]*UFunc
-	Axioms   []*SMTAxiom
-	Funcs    map[string]*Contract // key: pkgpath + "::" + Key  (trusted: Key only)
-	Specs    map[string]*SpecFn
-	Ghosts   map[string]*GhostVar
-	Lemmas   []*Lemma
-	PurePkgs []string
-	Errors   []string
+	ChanGhosts map[string]string   // pkg::Type.field -> ghost seq variable
+	ChanCounts map[string]string   // pkg::Type.field -> ghost map[ref]int counting receives per owner object
+	LockInvs   map[string]*LockInv // pkg::Type.field
+	UFuncs     map[string]*UFunc
+	Axioms     []*SMTAxiom
+	Funcs      map[string]*Contract // key: pkgpath + "::" + Key  (trusted: Key only)
+	Specs      map[string]*SpecFn
+	Ghosts     map[string]*GhostVar
+	Lemmas     []*Lemma
+	PurePkgs   []string
+	Errors     []string
 }
 
 func newContractSet() *ContractSet {
@@ -139,7 +140,7 @@ func newContractSet() *ContractSet {
 }
 
 var clauseKw = map[string]bool{"props": true, "tier": true, "requires": true, "ensures": true, "modifies": true, "loop": true,
-	"panics": true, "inline": true, "pure": true, "assumes": true, "universe": true, "fresh": true, "params": true, "note": true, "funcparam": true, "ghostset": true, "rangeloop": true, "unreachable": true, "dyncall": true, "opaque": true, "private": true, "splitposts": true}
+	"panics": true, "inline": true, "pure": true, "assumes": true, "universe": true, "fresh": true, "params": true, "note": true, "funcparam": true, "ghostset": true, "rangeloop": true, "unreachable": true, "dyncall": true, "opaque": true, "private": true, "splitposts": true, "trustpre": true}
 
 var topKw = map[string]bool{"chancount": true, "changhost": true, "lockonly": true, "lockinv": true, "lockguar": true, "ufunc": true, "smtaxiom": true, "func": true, "trusted": true, "spec": true, "ghost": true, "lemma": true, "axiom": true, "purepkg": true}
 
@@ -474,6 +475,8 @@ func (cs *ContractSet) parseFile(fset *token.FileSet, f *ast.File, pkgPath strin
 				}
 			case "unreachable":
 				cur.Unreachable = append(cur.Unreachable, strings.Fields(it.rest)...)
+			case "trustpre":
+				cur.TrustPre = append(cur.TrustPre, strings.Fields(strings.ReplaceAll(it.rest, ",", " "))...)
 			case "splitposts":
 				cur.SplitPosts = true
 			case "private":
